@@ -2,9 +2,21 @@ package main
 
 import (
 	"fmt"
+	"runtime"
 
 	"github.com/openacid/slim/xsimrt"
 )
+
+// spinTransport selects how the baton is passed. The default (channels) is
+// used by the simulated lane. In the CONTROLLED RACE LANE the harness package
+// is compiled without race instrumentation and the baton is a plain variable
+// polled with runtime.Gosched() under GOMAXPROCS=1: no channel, mutex or atomic
+// is touched, so the race detector sees NO happens-before edge between tasks
+// although they run strictly one at a time under the simulator's schedule. Two
+// conflicting accesses of the code under test from different tasks that are
+// not ordered by the code's OWN synchronisation are then reported by the race
+// detector deterministically, whatever the schedule.
+var spinTransport bool
 
 // The simulator proper: tasks are real goroutines run one at a time; who runs
 // next is only ever decided here, from the run's PRNG or from a recorded
@@ -82,11 +94,13 @@ type Task struct {
 }
 
 type Sim struct {
-	strat Strategy
-	rng   *Rng
-	tasks []*Task
-	cur   *Task
-	back  chan struct{}
+	strat  Strategy
+	rng    *Rng
+	tasks  []*Task
+	cur    *Task
+	back   chan struct{}
+	turn   int // spin transport: id of the task holding the baton, -1 = scheduler
+	doneCh chan struct{}
 
 	steps      int64
 	totalSteps int64 // estimate of the run's total step count (for PCT change points)
@@ -107,6 +121,7 @@ type Sim struct {
 	// sweep
 	fired    bool
 	skipLeft int
+	forced   bool // the last park was a forced switch (lock not available)
 
 	monitors []func(site int)
 
@@ -135,6 +150,7 @@ func newSim(strat Strategy, replay []Seg, totalSteps int64) *Sim {
 		strat:        strat,
 		rng:          NewRng(strat.Seed),
 		back:         make(chan struct{}),
+		turn:         -1,
 		totalSteps:   totalSteps,
 		maxSteps:     5_000_000,
 		evHash:       14695981039346656037,
@@ -204,7 +220,7 @@ func (s *Sim) forceSwitch() {
 	s.segs[len(s.segs)-1].N++
 	s.evHash = (s.evHash ^ uint64(t.id+1)<<20 ^ 0xfffff) * fnvPrime
 	s.spin++
-	s.probes["forced_switch"]++
+	s.probe("forced_switch")
 	if s.stop || s.steps > s.maxSteps || s.spin > 2000*(len(s.tasks)+1) {
 		if !s.stop {
 			s.stop = true
@@ -222,6 +238,7 @@ func (s *Sim) forceSwitch() {
 		s.lowPrio--
 		t.prio = s.lowPrio
 	}
+	s.forced = true
 	if s.strat.Kind == "replay" && !s.draining {
 		s.rleft--
 		if s.rleft > 0 {
@@ -262,8 +279,10 @@ func (s *Sim) decide(t *Task, site int) bool {
 		if !s.fired && t.id == s.strat.Task && site == s.strat.Site && site > 0 {
 			if s.skipLeft <= 0 {
 				s.fired = true
-				s.probes["sweep_fired"]++
-				s.sitePairs[[2]int{site, -1000}] = struct{}{}
+				s.probe("sweep_fired")
+				if !spinTransport {
+					s.sitePairs[[2]int{site, -1000}] = struct{}{}
+				}
 				return true
 			}
 			s.skipLeft--
@@ -281,6 +300,13 @@ func (s *Sim) park(t *Task, site int) {
 				break
 			}
 		}
+	}
+	if spinTransport {
+		s.turn = -1
+		for s.turn != t.id {
+			runtime.Gosched()
+		}
+		return
 	}
 	s.back <- struct{}{}
 	<-t.resume
@@ -334,6 +360,12 @@ func (s *Sim) pickNext() *Task {
 		return live[0]
 	case "sweep":
 		tgt := s.strat.Task
+		if s.forced {
+			// the task that just ran could not take a lock: let every other
+			// live task (including the parked target, which may hold it) run
+			s.forced = false
+			return s.cyclicAfter(live)
+		}
 		if !s.fired {
 			if tgt >= 0 && tgt < len(s.tasks) && !s.tasks[tgt].done {
 				return s.tasks[tgt]
@@ -391,10 +423,26 @@ func (s *Sim) run() {
 		}
 		sortInt64(s.changeAt)
 	}
+	if spinTransport {
+		s.doneCh = make(chan struct{}, len(s.tasks)+1)
+		defer func() {
+			// hand-off of everything the tasks wrote (instances loaded by
+			// loader tasks, outcomes) to the main goroutine
+			for range s.tasks {
+				<-s.doneCh
+			}
+		}()
+	}
 	for _, t := range s.tasks {
 		t := t
 		go func() {
-			<-t.resume
+			if spinTransport {
+				for s.turn != t.id {
+					runtime.Gosched()
+				}
+			} else {
+				<-t.resume
+			}
 			t.body(t)
 			t.done = true
 			t.inUnit = false
@@ -402,6 +450,13 @@ func (s *Sim) run() {
 			// yield longer than executed, so that replay never parks the task
 			// inside its last yield (which would delay the code after it).
 			s.segs[len(s.segs)-1].N++
+			if spinTransport {
+				// the only visible synchronisation of the lane: task end ->
+				// scheduler, one buffered slot per task (no edge between tasks)
+				s.doneCh <- struct{}{}
+				s.turn = -1
+				return
+			}
 			s.back <- struct{}{}
 		}()
 	}
@@ -421,7 +476,7 @@ func (s *Sim) run() {
 			s.switches++
 			s.schedHash = (s.schedHash ^ uint64(prev.id+1)<<40 ^ uint64(prev.lastSite+2)<<8 ^ uint64(t.id+1)) * fnvPrime
 			s.schedHash = (s.schedHash ^ hashStr(prev.unitKind)) * fnvPrime
-			if !prev.done && prev.inUnit {
+			if !prev.done && prev.inUnit && !spinTransport {
 				if len(s.sitePairs) < 200000 {
 					s.sitePairs[[2]int{prev.lastSite, t.lastSite}] = struct{}{}
 				}
@@ -429,6 +484,13 @@ func (s *Sim) run() {
 		}
 		s.cur = t
 		s.segs = append(s.segs, Seg{T: t.id})
+		if spinTransport {
+			s.turn = t.id
+			for s.turn != -1 {
+				runtime.Gosched()
+			}
+			continue
+		}
 		t.resume <- struct{}{}
 		<-s.back
 	}
@@ -439,9 +501,18 @@ func (s *Sim) run() {
 func (s *Sim) noteOverlap(t *Task, kind string) {
 	for _, o := range s.tasks {
 		if o != t && !o.done && o.inUnit {
-			s.overlapPairs[o.unitKind+"|"+kind]++
+			if !spinTransport { // no Go maps shared between tasks in the controlled race lane (map ops are race-annotated inside the runtime)
+				s.overlapPairs[o.unitKind+"|"+kind]++
+			}
 			s.overlaps++
 		}
+	}
+}
+
+// probe bumps a named probe counter (skipped in the controlled race lane).
+func (s *Sim) probe(name string) {
+	if !spinTransport {
+		s.probes[name]++
 	}
 }
 
